@@ -11,6 +11,7 @@ import harness.C15 as C15
 W = 'w_TM'
 CTOR = '@_ZN13GeographicLib18TransverseMercatorC2Edddbb'
 ASSUMPTIONS = [
+    'Reverse parity obligations: series mode (_exact = false), arbitrary object members with _a1, _k0 > 0; sin, cos, sinh, cosh, tanh, atan2, hypot, cabs, sqrt, tauf, atand, atan2d are deterministic uninterpreted functions, AngNormalize is the identity (angles modulo 360) (the Clenshaw sums are executed symbolically, complex products by their definition); two symbolic runs on a point with x, y > 0 and its mirror image are compared path pair by path pair; the values of latitude/longitude themselves (accuracy, Newton convergence) are outside the claim',
     '[REAL] obligations: exact real meaning of the floating-point operations; rounding/NaN/overflow outside the claim',
     'TransverseMercator constructor executed with a = k0 = 1, exact = extendp = false and f = 2n/(1+n) for symbolic n in (-1,1); Math::eatanhe, exp and the default-constructed TransverseMercatorExact member are opaque (they do not feed the series coefficients)',
     'oracles: b1 from the first-principles meridian-arc mean (vfw/series.py); alpha_j / beta_j from (i) the order-8 Krueger tables of TransverseMercator.cpp and (ii) the independently generated tables C[mu,chi], C[chi,mu] of AuxLatitude.cpp',
@@ -125,8 +126,76 @@ def ob_tm_tables(ctx, which):
     res.update(tot); res['solver_s'] = round(tot['solver_s'], 4); res['bounds'] = {'constructor paths': len(runs)}
     return res
 
+# ---- TransverseMercator::Reverse: parity bookkeeping (xisign / etasign / backside) decided as symmetry of two symbolic runs
+TMR = '@_ZNK13GeographicLib18TransverseMercator7ReverseEdddRdS1_S1_S1_'
+def _tm_run(ctx, xs, ys, extra=()):
+    import z3
+    from vfw import rsym
+    m = H.ir_module(ctx, W); o = H.offsets(m, 'TransverseMercator'); lon0 = z3.Real('lon0')
+    cells = {off: z3.Real('TM_%d' % off) for off in range(0, H.sizeof(m, 'TransverseMercator'), 8)}
+    cells[o['_exact']] = 0
+    def U(name, n): return lambda ex, a, mem: ex.UF(name, n)(*a[:n])
+    def an(ex, a, mem): return a[0]        # AngNormalize changes its argument by a multiple of 360 only: identity in this model (claims are modulo 360)
+    def muldc3(ex, a, mem): return [a[0] * a[2] - a[1] * a[3], a[0] * a[3] + a[1] * a[2]]
+    a1, k0 = cells[o['_a1']], cells[o['_k0']]
+    ex = rsym.Exec(m, opaque={'@_ZN13GeographicLib4Math12AngNormalizeIdEET_S2_': an, '@_ZN13GeographicLib4Math4taufIdEET_S2_S2_': U('tauf', 2), '@_ZN13GeographicLib4Math5atandIdEET_S2_': U('atand', 1),
+                              '@_ZN13GeographicLib4Math6atan2dIdEET_S2_S2_': U('atan2d', 2)},
+                    libm={'__muldc3': muldc3, 'cabs': U('cabs', 2), 'hypot': U('hypot', 2), 'sqrt': U('sqrt', 1), 'sin': U('sin', 1), 'cos': U('cos', 1), 'sinh': U('sinh', 1), 'cosh': U('cosh', 1), 'tanh': U('tanh', 1), 'atan2': U('atan2', 2)},
+                    assume=[a1 > 0, k0 > 0] + list(extra), path_cap=128)
+    paths = ex.run_all(TMR, lambda ex, mem: [ex.new_obj(mem, 'obj', dict(cells)), lon0, xs, ys, ex.new_obj(mem, 'o'), rsym.Ptr('o', 8), rsym.Ptr('o', 16), rsym.Ptr('o', 24)])
+    return paths, lon0
+
+def ob_tm_parity(ctx, which):
+    import z3
+    from vfw import rsym
+    x, y = z3.Real('x'), z3.Real('y'); base = [x > 0, y > 0]
+    A, lon0 = _tm_run(ctx, x, y, base)
+    B, _ = _tm_run(ctx, -x if which == 'eta' else x, y if which == 'eta' else -y, base)
+    q = 0; ss = 0.0; bad = None; unk = []; pairs = 0
+    s = z3.Solver(); s.set('timeout', 5000)
+    for pa in A:
+        for pb in B:
+            cond = base + list(pa.cond) + list(pb.cond)
+            # the two runs branch on the same (normalised) terms: a pair whose decisions contradict each other syntactically is infeasible
+            ka = {z3.simplify(c).sexpr() for c in pa.cond}; kb = {z3.simplify(c).sexpr() for c in pb.cond}
+            if any(z3.simplify(z3.Not(c)).sexpr() in kb for c in pa.cond): continue
+            if ka != kb:
+                s.push(); s.add(*cond); feas = s.check(); s.pop()
+                if feas == z3.unsat: continue
+            pairs += 1
+            la, lb = pa.mem['o'], pb.mem['o']; ana, anb = [la[8], la[16]], [lb[8], lb[16]]
+            if which == 'eta':     # x -> -x : mirror in the central meridian
+                claims = [('latitude unchanged', la[0] == lb[0]), ('longitude relative to the central meridian changes sign', ana[0] - lon0 == -(anb[0] - lon0)), ('convergence changes sign', ana[1] == -anb[1]), ('scale unchanged', la[24] == lb[24])]
+            else:                  # y -> -y : mirror in the equator
+                claims = [('latitude changes sign', la[0] == -lb[0]), ('longitude unchanged', ana[0] == anb[0]), ('convergence changes sign', ana[1] == -anb[1]), ('scale unchanged', la[24] == lb[24])]
+            for nm, c in claims:
+                c = z3.simplify(c)
+                st, model, dt = rsym.prove(c, cond, timeout_ms=30000); q += 1; ss += dt
+                if st == 'sat' and bad is None: bad = {'kind': 'tmparity', 'which': which, 'claim': nm}
+                elif st == 'unknown': unk.append(nm)
+    r = {'queries': q, 'nontrivial': q, 'solver_s': round(ss, 3), 'functions': ['GeographicLib::TransverseMercator::Reverse'], 'bounds': {'x, y': '> 0 against the mirrored point', 'paths': [len(A), len(B)], 'feasible path pairs': pairs, 'object': 'arbitrary members, series mode'}}
+    if bad: r.update({'verdict': 'violated', 'detail': 'TransverseMercator::Reverse, mirror in the %s: "%s" refuted' % ('central meridian' if which == 'eta' else 'equator', bad['claim']), 'cex': bad})
+    elif unk: r.update({'verdict': 'inconclusive', 'detail': 'unknown: %r' % unk[:5]})
+    elif pairs == 0: r.update({'verdict': 'inconclusive', 'detail': 'no feasible path pair'})
+    else: r['verdict'] = 'proved'
+    return r
+
+def replay_tmparity(cex):
+    import ctypes
+    lib = H.native({}, W); f = lib.vf_tm_reverse; f.restype = None; f.argtypes = [ctypes.c_double] * 3 + [ctypes.c_void_p]
+    worst = 0; msg = ''
+    for (x, y) in ((300000.0, 4000000.0), (250000.0, 12000000.0), (80000.0, 10500000.0), (500000.0, 15000000.0)):
+        a = (ctypes.c_double * 4)(); b = (ctypes.c_double * 4)()
+        f(7.0, x, y, a); f(7.0, -x if cex['which'] == 'eta' else x, y if cex['which'] == 'eta' else -y, b)
+        nrm = lambda d: (d + 180.0) % 360.0 - 180.0
+        if cex['which'] == 'eta': dev = max(abs(a[0] - b[0]), abs(nrm((a[1] - 7.0) + (b[1] - 7.0))), abs(nrm(a[2] + b[2])), abs(a[3] - b[3]))
+        else: dev = max(abs(a[0] + b[0]), abs(nrm(a[1] - b[1])), abs(nrm(a[2] + b[2])), abs(a[3] - b[3]))
+        if dev > worst: worst = dev; msg = '(x, y) = (%g, %g): Reverse gives (lat, lon, gamma, k) = (%.6f, %.6f, %.6f, %.6f), the mirrored point (%.6f, %.6f, %.6f, %.6f)' % (x, y, a[0], a[1], a[2], a[3], b[0], b[1], b[2], b[3])
+    return worst > 1e-6, 'TransverseMercator::UTM().Reverse(lon0 = 7) on the real code, mirror in the %s: largest asymmetry %.3g; %s' % ('central meridian' if cex['which'] == 'eta' else 'equator', worst, msg)
+
 def obligations(ctx):
-    return [
+    par = [Ob('Q2.Reverse.parity.%s' % w, (lambda ctx, w=w: ob_tm_parity(ctx, w)), '[REAL]', 'E2 rsym+z3', 'TransverseMercator::Reverse (series): mirroring the point in the %s changes only the documented signs (latitude / longitude offset / convergence), incl. points on the far side (xi > pi/2)' % ('central meridian' if w == 'eta' else 'equator'), timeout=900) for w in ('eta', 'xi')]
+    return par + [
         Ob('Q1.tables.order8+b1', lambda ctx: ob_tm_tables(ctx, 'order8'), '[REAL]', 'E2 rsym+z3',
            'TransverseMercator constructor: alpha_1..6, beta_1..6 equal the truncated order-8 Krueger series; b1 equals the first-principles rectifying-radius series / (1+n)', timeout=600, bounds={'order': 6, 'n': '(-1,1)'}),
         Ob('Q1.tables.auxlatitude', lambda ctx: ob_tm_tables(ctx, 'auxlat'), '[REAL]', 'E2 rsym+z3',
@@ -134,6 +203,7 @@ def obligations(ctx):
     ]
 
 def replay(rp):
+    if rp['cex'].get('kind') == 'tmparity': return replay_tmparity(rp['cex'])
     return polyid.replay(rp)
 
 MANIFEST = {
